@@ -96,6 +96,7 @@ fn opts_for(variant: &str, rng: &mut Rng, tier: Tier) -> WsOpts {
     match variant {
         "plain" => {
             o.imports = false;
+            o.same_file_dups = rng.chance(300);
         }
         "imports" => {
             o.colliding_imports = rng.chance(600);
@@ -248,6 +249,7 @@ impl Scenario for Resolve {
             let exp = model.resolve(file, &t.name, excl);
             match &exp.via {
                 Via::SameFile => out.count("probe.expect_same_file", 1),
+                Via::OwnImport => out.count("probe.expect_import_of_using_module", 1),
                 Via::ConftestOwn(_) => out.count("probe.expect_conftest_own", 1),
                 Via::ConftestImport(_) => out.count("probe.expect_conftest_import", 1),
                 Via::WorkspacePlugin => out.count("probe.expect_workspace_plugin", 1),
